@@ -168,7 +168,12 @@ func c20(w *core.World, r *core.Report) {
 			for i, e := range ev {
 				if e.kind == "exists" || e.kind == "del" {
 					get("R20.1/probe-first-chunk-only").n++
-					if !first {
+					// a value that is not split has one chunk only: that chunk is the first one
+					whole := pathAssumed(p, func(x ssa.Value) bool {
+						c, ok := core.Unwrap(x).(*ssa.Call)
+						return ok && c.Call.IsInvoke() && c.Call.Method.Name() == "IsSplited"
+					}, false)
+					if !first && !whole {
 						fail("R20.1/probe-first-chunk-only", e.kind+" runs for a chunk that is not the first one of its value: a later chunk sees the key its predecessors created (replace deletes them, error aborts)", e.pos)
 					}
 				}
@@ -341,6 +346,8 @@ func c20(w *core.World, r *core.Report) {
 	ruleBisyncRestoreReplace(w, r)
 	r.Rule("R20.11", "all chunks of one key reach the worker that made the key-exists decision: the distributor picks the worker of a keyed entry from the key alone", 1)
 	ruleChunksSameWorker(w, r)
+	r.Rule("R20.16", "under replace the existing key is deleted before the native fall-back of a failed RESTORE ... REPLACE", 1)
+	ruleReplaceDeletesBeforeFallback(w, r)
 	r.Rule("R20.15", "a failed RESTORE falls back to native commands (which skip the key-exists probe) only for the 'Bad data format' reply", 1)
 	ruleNativeFallbackOnlyForBadFormat(w, r)
 	r.Rule("R10.15", "every snapshot key the filters let through reaches the policy: an intact entry is withheld only by the database, key or slot rule (shared with C10)", 2)
@@ -1171,4 +1178,71 @@ func ruleNativeFallbackOnlyForBadFormat(w *core.World, r *core.Report) {
 		return
 	}
 	r.Check(bad == "" && n > 0, "Replay/native-fallback-only-for-bad-format", pos, "%s (fallback paths=%d)", bad, n)
+}
+
+// ---------------------------------------------------------------- R20.16 replace removes the key before the native fall-back too
+
+// ruleReplaceDeletesBeforeFallback: RESTORE tests for an existing key before it
+// loads the payload. Under replace an existing key makes the first RESTORE fail
+// with BUSYKEY, the retry carries REPLACE; if that one fails with "Bad data
+// format" the entry is written with native commands, which do not replace
+// anything. On every path of Replay that added REPLACE and then reaches the
+// native fall-back, a DEL of the key comes first — otherwise the members of the
+// old value survive next to the new ones.
+func ruleReplaceDeletesBeforeFallback(w *core.World, r *core.Report) {
+	f := fn(w, r, replayFn)
+	if f == nil {
+		return
+	}
+	isReplaceAppend := func(in ssa.Instruction) bool {
+		c, ok := in.(*ssa.Call)
+		if !ok || !isBuiltin(c, "append") || len(c.Call.Args) != 2 {
+			return false
+		}
+		els, ok := core.VariadicElems(c.Call.Args[1])
+		if !ok {
+			return false
+		}
+		for _, e := range els {
+			if s, isS := core.ConstString(core.Unwrap(e)); isS && strings.EqualFold(s, "REPLACE") {
+				return true
+			}
+		}
+		return false
+	}
+	bad := ""
+	var pos token.Pos = f.Pos()
+	n := 0
+	okEnum := core.EnumPathsN(f.Blocks[0], 0, 400000, 2, func(p *core.Path) {
+		if bad != "" {
+			return
+		}
+		replaced, deleted := false, false
+		for _, in := range p.Instrs {
+			if isReplaceAppend(in) {
+				replaced, deleted = true, false
+			}
+			ci, ok := in.(*ssa.Call)
+			if !ok {
+				continue
+			}
+			s := core.ResolveCall(ci)
+			if s.Common().IsInvoke() && s.Method == "Do" && len(s.Common().Args) > 0 {
+				if c, isC := core.ConstString(s.Common().Args[0]); isC && (strings.EqualFold(c, "del") || strings.EqualFold(c, "unlink")) {
+					deleted = true
+				}
+			}
+			if strings.HasSuffix(s.Name, "rdbrestore.restoreBigRdbEntry") && replaced {
+				n++
+				if !deleted {
+					bad, pos = "after RESTORE ... REPLACE failed, the entry is written with native commands without the existing key having been deleted: the old value's members survive next to the snapshot's", s.Pos()
+				}
+			}
+		}
+	})
+	if !okEnum {
+		r.Undecided("Replay/replace-deletes-before-native-fallback", f.Pos(), "too many paths")
+		return
+	}
+	r.Check(bad == "" && n > 0, "Replay/replace-deletes-before-native-fallback", pos, "%s (paths=%d)", bad, n)
 }
